@@ -815,7 +815,26 @@ Fixpoint x86_bind_loop (allowed : bset) (restrict_set : option bset) (procs : li
          if negb (rc =? 0)%Z then x86_bind_loop allowed restrict_set rest cur1 visited
          else x86_bind_loop allowed restrict_set rest cur1 (visited ++ [i])   (* look_proc(i) runs bound to PU i *)
   end.
-Definition x86_look_procs (allowed : bset) (restrict_set : option bset) (nbprocs : nat) (cur : bset) : bset * list N :=
-  let orig := cur in                                   (* get_cpubind(orig_cpuset, STRICT) *)
+(* look_procs: [orig] is what its get_cpubind(orig_cpuset, STRICT) call returned; it is restored at the end *)
+Definition x86_look_procs (allowed : bset) (restrict_set : option bset) (nbprocs : nat) (orig cur : bset) : bset * list N :=
   let (cur1, visited) := x86_bind_loop allowed restrict_set (map N.of_nat (seq 0 nbprocs)) cur [] in
   (snd (ideal_set allowed orig cur1), visited).        (* set_cpubind(orig_cpuset, 0) *)
+
+(* hwloc_look_x86 on Linux: get_cpubind / set_cpubind are the THISTHREAD hooks (both exist), so the binding
+   that is saved is the calling THREAD's; with RESTRICT_TO_CPUBINDING restrict_set is the PROCESS binding
+   (get_thisproc_cpubind: the union over all threads), dropped when empty.  [thread] is the calling thread's
+   affinity, [others] the union of the other threads' affinities.  Returns the calling thread's affinity
+   after the backend ran and the PUs it visited. *)
+Definition x86_query_thisthread (thread others : bset) : bset := thread.
+Definition x86_query_thisproc (thread others : bset) : bset := bs_union thread others.
+Definition x86_look (allowed : bset) (restrict_to_cpubinding : bool) (nbprocs : nat) (thread others : bset) : bset * list N :=
+  let restrict_set :=
+    if restrict_to_cpubinding then
+      let p := x86_query_thisproc thread others in if bs_is_empty p then None else Some p
+    else None in
+  let orig := x86_query_thisthread thread others in        (* the explicit "binding queried" step *)
+  x86_look_procs allowed restrict_set nbprocs orig thread.
+(* the variant that saves the process binding instead (what a "reuse restrict_set" shortcut does) *)
+Definition x86_look_saving_proc (allowed : bset) (nbprocs : nat) (thread others : bset) : bset * list N :=
+  let p := x86_query_thisproc thread others in
+  x86_look_procs allowed (if bs_is_empty p then None else Some p) nbprocs p thread.
